@@ -217,3 +217,36 @@ class RequestMonitor(Monitor):
         for key, exp in self.expected.items():
             if exp:
                 self.violate(self.P, "C02.delivery", "transaction-never-ended-with-accepted-requests", n=len(exp))
+
+
+class RejectionMonitor(RequestMonitor):
+    """C03: a request rejected with an error (order not in a state that permits it, operation in flight) has no side
+    effects - the same before/after snapshot as C02, reported under C03 and only for requests that raised."""
+
+    P = "C03"
+
+    def on_request_after(self, kind, txn, order, a, k, res, exc):
+        if self.pre is None:
+            return
+        before = self.pre[0]
+        self.pre = None
+        if exc is None:
+            return
+        after = snapshot(order, txn)
+        self.res.probes["c03.rejected.%s.on.%s" % (kind, before["status"])] += 1
+        if after != before:
+            diff = {x: (before[x], after[x]) for x in before if before[x] != after[x]}
+            self.violate(self.P, "C03.one-in-flight", "rejected-request-has-side-effects:%s-on-%s" % (kind.lower(), before["status"]), order=order._vid, error="%s: %s" % (type(exc).__name__, exc), diff={x: [str(v[0])[:120], str(v[1])[:120]] for x, v in diff.items()})
+
+    # delivery bookkeeping of C02 is not part of C03
+    def on_package(self, pkg):
+        pass
+
+    def on_txn_execute(self, txn, n):
+        pass
+
+    def on_txn_exit(self, txn):
+        pass
+
+    def on_end(self):
+        pass
